@@ -279,7 +279,8 @@ pub fn candidates(c: &Case) -> Vec<Case> {
         }
     }
     // shorten inputs
-    for ii in 0..c.inputs.len() {
+    let shrink_inputs = c.extra.get("all_scalars").is_none();
+    for ii in 0..if shrink_inputs { c.inputs.len() } else { 0 } {
         let chars: Vec<char> = c.inputs[ii].chars().collect();
         if chars.len() > 4 {
             let h = chars.len() / 2;
@@ -287,6 +288,21 @@ pub fn candidates(c: &Case) -> Vec<Case> {
                 let mut n = c.clone();
                 n.inputs[ii] = keep.iter().collect();
                 out.push(n);
+            }
+            // delete blocks of decreasing size (delta debugging) before single characters
+            let mut size = chars.len() / 4;
+            while size >= 2 {
+                let mut start = 0;
+                while start < chars.len() {
+                    let end = (start + size).min(chars.len());
+                    let mut w: Vec<char> = chars[..start].to_vec();
+                    w.extend_from_slice(&chars[end..]);
+                    let mut n = c.clone();
+                    n.inputs[ii] = w.into_iter().collect();
+                    out.push(n);
+                    start += size;
+                }
+                size /= 2;
             }
         }
         for i in (0..chars.len()).rev() {
@@ -369,7 +385,7 @@ pub fn candidates(c: &Case) -> Vec<Case> {
         }
     }
     // simplify input characters
-    for ii in 0..c.inputs.len() {
+    for ii in 0..if shrink_inputs { c.inputs.len() } else { 0 } {
         let chars: Vec<char> = c.inputs[ii].chars().collect();
         for i in 0..chars.len() {
             if chars[i] != 'a' {
